@@ -418,7 +418,7 @@ func init() {
 			assumptions: []string{"the block end for maximality is parse position + min(BlockSize, unparsed)"},
 			mandatory:   []string{"matches_checked_for_maximality", "matches_ending_inside_block", "matches_ending_at_block_end", "backward_extension_checked", "run_blocks_checked", "run_blocks_inside_run", "run_blocks_of_zero_bytes", "run_blocks_with_tiny_window"}},
 		types: gen.ParserTypes, quickN: 12000, thorMul: 40, corpusN: 600, large: true,
-		weights: DefaultWeights, scale: scaleAll,
+		weights: DefaultWeights, scale: append(append([]string{}, scaleAll...), "zeroshrink", "zeroshrink", "zeroshrink", "zeroshrink", "zeroshrink", "zeroshrink"), duo: true,
 		fixed: map[string]PCase{
 			// reproducer of the recorded finding KF-C19-GSAP
 			"gsap-shadowed-run": {Cfg: gen.Cfg{Type: "GSAP", ShrinkSize: 1, BufferSize: 203, WindowSize: 3, BlockSize: 39, MinMatchLen: 3},
